@@ -27,6 +27,26 @@ type faultScn struct {
 	Pipe  bool              `json:"pipe"`
 	Warm  bool              `json:"warm"`
 	Small bool              `json:"small"`
+	// further ingredients (spec/fault/FaultObs.tla): an unsolicited unsubscribe push before the fault, new short-lived calls
+	// while the server is silent, a RESP2 client (Pub/Sub on a second connection)
+	Push    string `json:"push"`
+	Traffic bool   `json:"traffic"`
+	Resp2   bool   `json:"resp2"`
+}
+
+// opts renders the further ingredients for the scenario name and the findings
+func (s faultScn) opts() string {
+	var parts []string
+	if s.Push != "" && s.Push != "none" {
+		parts = append(parts, "push="+s.Push)
+	}
+	if s.Traffic {
+		parts = append(parts, "traffic")
+	}
+	if s.Resp2 {
+		parts = append(parts, "resp2")
+	}
+	return strings.Join(parts, " ")
 }
 
 func (s faultScn) name() string {
@@ -49,6 +69,9 @@ func (s faultScn) name() string {
 	}
 	if s.Small {
 		n += " small-queue"
+	}
+	if o := s.opts(); o != "" {
+		n += " " + o
 	}
 	return n
 }
@@ -75,6 +98,17 @@ type pcall struct {
 
 const hangWait = 13 * time.Second
 
+// constants of spec/fault/FaultObs.tla
+const (
+	deadlineMs = 400
+	dlFarMs    = 60000
+	backoffMs  = 9000
+	dialMs     = 60000
+)
+
+func isHandshakeKind(k string) bool { return k == "hsblock" || k == "hsredial" || k == "hspool" }
+func isBackoffKind(k string) bool   { return k == "backoff" || k == "backoffm" }
+
 // callID maps a request id ("p3.b") to its call ("p3")
 func callID(req string) string {
 	if i := strings.IndexByte(req, '.'); i >= 0 {
@@ -89,12 +123,38 @@ func runFaultScenario(sc faultScn, ord int) (events []ev, notes []string) {
 	nd := w.nodes[0]
 	tr := w.tr
 	logf := func(e ev) { tr.log(e) }
-	logf(ev{Ev: "RESET", Ck: sc.name(), Kind: queueType(), V: sc.Fault, N: ord})
+	logf(ev{Ev: "RESET", Ck: sc.name(), Kind: queueType(), V: sc.Fault, Val: sc.opts(), N: ord})
 
 	triggerFault := sc.Fault == "cutnow" || sc.Fault == "execcut" || sc.Fault == "midreply"
 	var parkedConn atomic.Pointer[fakeredis.Conn]
+	var kinds sync.Map         // call id -> call kind
+	var stallHello atomic.Bool // from now on the server accepts connections and never answers HELLO
+	var helloParked atomic.Int32
+	var finished atomic.Bool
+	backoffSeen := make(chan string, 16)
+	kindOf := func(id string) string {
+		if k, ok := kinds.Load(callID(id)); ok {
+			return k.(string)
+		}
+		return ""
+	}
+	w.other = func(nd *node, c *fakeredis.Conn, argv []string) (fakeredis.Value, fakeredis.Action, bool) {
+		if stallHello.Load() && len(argv) > 0 && strings.EqualFold(argv[0], "HELLO") {
+			helloParked.Add(1)
+			return fakeredis.Value{}, fakeredis.Park, true
+		}
+		return fakeredis.Value{}, fakeredis.Pass, false
+	}
 	w.decide = func(nd *node, c *fakeredis.Conn, id string, n int, argv []string) (fakeredis.Value, fakeredis.Action) {
 		switch {
+		case isBackoffKind(kindOf(id)): // the server is loading its data set: every attempt is refused
+			return fakeredis.Err("LOADING Redis is loading the dataset in memory"), fakeredis.Reply
+		case strings.HasPrefix(id, "x"): // throw-away calls of the driver
+			return fakeredis.Value{}, fakeredis.Pass
+		case strings.HasPrefix(id, "b"):
+			// background traffic: on the silent connection its replies stay in the server like all the others (the connection
+			// is being held); on a fresh connection it is answered
+			return fakeredis.Value{}, fakeredis.Pass
 		case strings.HasPrefix(id, "w"), strings.HasPrefix(id, "a"): // warm-up and after calls are answered
 			return fakeredis.Value{}, fakeredis.Pass
 		case id == "t1.a":
@@ -121,14 +181,42 @@ func runFaultScenario(sc faultScn, ord int) (events []ev, notes []string) {
 	}
 
 	hasCache := sc.has("cachemiss")
+	hasBackoff := sc.has("backoff") || sc.has("backoffm")
+	hasHandshake := sc.has("hsblock") || sc.has("hsredial") || sc.has("hspool")
 	opt := rueidis.ClientOption{
 		InitAddress:       []string{nd.addr},
 		DialCtxFn:         w.net.DialCtxFn(),
 		ForceSingleClient: true,
-		DisableRetry:      true,
+		DisableRetry:      !hasBackoff,
 		DisableCache:      !hasCache,
 		AlwaysPipelining:  sc.Pipe,
 		PipelineMultiplex: -1,
+	}
+	if hasBackoff {
+		// a back-off far longer than what counts as prompt, for the calls in back-off only; nothing else is retried
+		opt.RetryDelay = func(attempts int, cmd rueidis.Completed, err error) time.Duration {
+			id := callID(idOf(cmd.Commands()))
+			if !isBackoffKind(kindOf(id)) || finished.Load() {
+				return -1
+			}
+			tr.log(ev{Ev: "Backoff", ID: id, N: attempts})
+			select {
+			case backoffSeen <- id:
+			default:
+			}
+			return backoffMs * time.Millisecond
+		}
+	}
+	if sc.has("poolwait") {
+		opt.BlockingPoolSize = 1
+	}
+	if hasHandshake {
+		opt.Dialer.Timeout = dialMs * time.Millisecond // the dial timeout alone would end the handshake far too late
+		opt.DisableAutoPipelining = sc.has("hspool")
+	}
+	if sc.Resp2 {
+		opt.AlwaysRESP2 = true
+		opt.DisableCache = true
 	}
 	if sc.Fault == "pingtimeout" {
 		opt.Dialer.KeepAlive = 150 * time.Millisecond
@@ -165,14 +253,22 @@ func runFaultScenario(sc faultScn, ord int) (events []ev, notes []string) {
 		logf(ev{Ev: "Ret", ID: "w1", Kind: k, Val: v, N: -1})
 	}
 
+	if sc.Fault == "pingtimeout" {
+		// the server is silent from now on: whatever is sent is never answered, and the connection may be found dead (keep-alive
+		// ping, write/read time-out of a call on the synchronous path) at any moment after the first request
+		logf(ev{Ev: "Fault", Kind: sc.Fault})
+	}
+
 	var mu sync.Mutex
 	var calls []*pcall
 	var wg sync.WaitGroup
 	var dedicated rueidis.DedicatedClient
 	var dedRelease func()
+	var dedMain *fakeredis.Conn // the connection that carries the commands of the dedicated client
 
 	start := func(pc *pcall, fn func(ctx context.Context) (string, string)) {
 		pc.done = make(chan struct{})
+		kinds.Store(pc.id, pc.kind)
 		pc.ctx, pc.cancel = context.Background(), func() {}
 		mu.Lock()
 		calls = append(calls, pc)
@@ -187,9 +283,11 @@ func runFaultScenario(sc faultScn, ord int) (events []ev, notes []string) {
 			pc.cancel()
 			logf(ev{Ev: "CancelEnd", ID: pc.id})
 			pc.ctxEnd.Store(time.Now().UnixNano())
+		case "dlcancel": // a deadline far away; the context is cancelled by hand
+			pc.ctx, pc.cancel = context.WithTimeout(context.Background(), dlFarMs*time.Millisecond)
 		case "deadline":
 			// the deadline is armed when the call starts; CancelEnd is logged once ctx.Done() is closed
-			pc.ctx, pc.cancel = context.WithTimeout(context.Background(), 400*time.Millisecond)
+			pc.ctx, pc.cancel = context.WithTimeout(context.Background(), deadlineMs*time.Millisecond)
 			logf(ev{Ev: "CancelBegin", ID: pc.id})
 			go func() {
 				<-pc.ctx.Done()
@@ -245,7 +343,28 @@ func runFaultScenario(sc faultScn, ord int) (events []ev, notes []string) {
 	}
 
 	// --- the pending calls, in a fixed order
-	order := []string{"cachemiss", "cachewait", "do", "multi", "block", "sub"}
+	order := []string{"cachemiss", "cachewait", "do", "multi", "block", "poolwait", "sub", "dedsub", "backoff", "backoffm", "hsblock", "hsredial", "hspool"}
+	// wait (bounded) until the call sits in the waiting place the scenario is about
+	inBackoff := func(id string) {
+		dl := time.After(3 * time.Second)
+		for {
+			select {
+			case got := <-backoffSeen:
+				if got == id {
+					time.Sleep(20 * time.Millisecond) // RetryDelay has answered: the wait begins
+					return
+				}
+			case <-dl:
+				note("call %s did not reach the retry back-off", id)
+				return
+			}
+		}
+	}
+	inHandshake := func(id string, before int32) {
+		if !waitUntil(3*time.Second, func() bool { return helloParked.Load() > before }) {
+			note("call %s did not reach the handshake of a new connection", id)
+		}
+	}
 	n := 0
 	cacheKey := ""
 	for _, kind := range order {
@@ -322,6 +441,81 @@ func runFaultScenario(sc faultScn, ord int) (events []ev, notes []string) {
 				if sc.Fault != "dialfail" {
 					ready(pc, true)
 				}
+			case "dedsub":
+				// a dedicated client: one command first, so that its connection exists and is known, then the Receive
+				// (RESP2: on a second connection of the same wire)
+				before := map[int]bool{}
+				for _, c := range nd.srv.Conns() {
+					before[c.ID()] = true
+				}
+				dedicated, dedRelease = client.Dedicate()
+				dedicated.Do(context.Background(), client.B().Get().Key("k:x0").Build())
+				for _, c := range nd.srv.Conns() {
+					if !before[c.ID()] {
+						dedMain = c
+					}
+				}
+				start(pc, func(ctx context.Context) (string, string) {
+					err := dedicated.Receive(ctx, client.B().Subscribe().Channel("k:"+id).Build(), func(rueidis.PubSubMessage) {})
+					if err == nil {
+						return "ok", "s:"
+					}
+					return renderErr(err)
+				})
+				ready(pc, true)
+			case "poolwait": // the only connection of the blocking pool is taken by the "block" call
+				start(pc, func(ctx context.Context) (string, string) {
+					return renderResult(client.Do(ctx, client.B().Blpop().Key("k:"+id).Timeout(0).Build()))
+				})
+				ready(pc, false)
+			case "backoff":
+				start(pc, func(ctx context.Context) (string, string) {
+					return renderResult(client.Do(ctx, client.B().Get().Key("k:"+id).Build()))
+				})
+				if pc.ctxk != "deadline" { // (a back-off longer than the time left to the deadline is not waited for at all)
+					inBackoff(id)
+				} else {
+					ready(pc, true)
+				}
+			case "backoffm":
+				start(pc, func(ctx context.Context) (string, string) {
+					rs := client.DoMulti(ctx, client.B().Get().Key("k:"+id+".a").Build(), client.B().Get().Key("k:"+id+".b").Build())
+					return renderResult(rs[0])
+				})
+				if pc.ctxk != "deadline" {
+					inBackoff(id)
+				} else {
+					ready(pc, true)
+				}
+			case "hsblock": // the blocking pool has to make a connection for this call
+				stallHello.Store(true)
+				before := helloParked.Load()
+				start(pc, func(ctx context.Context) (string, string) {
+					return renderResult(client.Do(ctx, client.B().Blpop().Key("k:"+id).Timeout(0).Build()))
+				})
+				inHandshake(id, before)
+			case "hspool": // DisableAutoPipelining: every call takes a connection from the pool, the first one has to be made
+				stallHello.Store(true)
+				before := helloParked.Load()
+				start(pc, func(ctx context.Context) (string, string) {
+					return renderResult(client.Do(ctx, client.B().Get().Key("k:"+id).Build()))
+				})
+				inHandshake(id, before)
+			case "hsredial":
+				// the multiplexed connection breaks; a throw-away call makes the client notice (it fails on the broken
+				// connection or in the handshake of its own re-dial), so that the call under test has to dial
+				stallHello.Store(true)
+				for _, c := range nd.srv.Conns() {
+					c.Cut()
+				}
+				xctx, xcancel := context.WithTimeout(context.Background(), 300*time.Millisecond)
+				client.Do(xctx, client.B().Get().Key("k:x1").Build())
+				xcancel()
+				before := helloParked.Load()
+				start(pc, func(ctx context.Context) (string, string) {
+					return renderResult(client.Do(ctx, client.B().Get().Key("k:"+id).Build()))
+				})
+				inHandshake(id, before)
 			case "sub":
 				start(pc, func(ctx context.Context) (string, string) {
 					err := client.Receive(ctx, client.B().Subscribe().Channel("k:"+id).Build(), func(rueidis.PubSubMessage) {})
@@ -334,6 +528,47 @@ func runFaultScenario(sc faultScn, ord int) (events []ev, notes []string) {
 			}
 		}
 	}
+
+	// --- an unsolicited unsubscribe notification on every connection, ahead of whatever the server keeps back; the client's
+	// reader takes the next pending call off the queue for it
+	if sc.Push != "" && sc.Push != "none" {
+		logf(ev{Ev: "Push", Kind: sc.Push})
+		for _, c := range nd.srv.Conns() {
+			c.InjectNow(fakeredis.Push(fakeredis.Bulk(sc.Push), fakeredis.Bulk("unrelated"), fakeredis.Int(0)))
+		}
+		time.Sleep(150 * time.Millisecond) // (no way to see from outside that the reader has consumed it)
+	}
+	stopTraffic := func() {}
+	if sc.Traffic {
+		// request handlers with short deadlines keep issuing calls while the server is silent
+		stop := make(chan struct{})
+		var twg sync.WaitGroup
+		twg.Add(1)
+		go func() {
+			defer twg.Done()
+			tick := time.NewTicker(25 * time.Millisecond)
+			defer tick.Stop()
+			for i := 0; i < 600; i++ {
+				select {
+				case <-stop:
+					return
+				case <-tick.C:
+				}
+				bid := fmt.Sprintf("k:b%d", i)
+				twg.Add(1)
+				go func() {
+					defer twg.Done()
+					bctx, bcancel := context.WithTimeout(context.Background(), 50*time.Millisecond)
+					client.Do(bctx, client.B().Get().Key(bid).Build())
+					bcancel()
+				}()
+			}
+		}()
+		var once sync.Once
+		stopTraffic = func() { once.Do(func() { close(stop); twg.Wait() }) }
+		time.Sleep(60 * time.Millisecond)
+	}
+	defer stopTraffic()
 
 	// --- the fault
 	t0 := time.Now()
@@ -362,8 +597,7 @@ func runFaultScenario(sc faultScn, ord int) (events []ev, notes []string) {
 				nd.srv.Unlock()
 			}
 		}
-	case "pingtimeout":
-		logf(ev{Ev: "Fault", Kind: sc.Fault})
+	case "pingtimeout": // (announced before the calls were issued)
 	case "close", "dialfail":
 		logf(ev{Ev: "CloseBegin"})
 		client.Close()
@@ -387,10 +621,29 @@ func runFaultScenario(sc faultScn, ord int) (events []ev, notes []string) {
 		logf(ev{Ev: "DedCloseEnd", ID: id})
 		_ = dedRelease
 		t0 = time.Now()
+	case "dedbreak":
+		logf(ev{Ev: "Fault", Kind: sc.Fault})
+		if dedMain != nil {
+			dedMain.Cut()
+		} else {
+			note("the connection of the dedicated client was not found")
+		}
+		// a command on the dedicated client fails on the broken connection ...
+		logf(ev{Ev: "Call", ID: "a1", Cls: "do", Ck: "none", Kind: "after"})
+		k, v := renderResult(dedicated.Do(context.Background(), client.B().Get().Key("k:a1").Build()))
+		logf(ev{Ev: "Ret", ID: "a1", Kind: k, Val: v, N: -1})
+		// ... and the dedicated client is given back (the pool closes a broken wire)
+		mu.Lock()
+		id := calls[len(calls)-1].id
+		mu.Unlock()
+		logf(ev{Ev: "DedCloseBegin", ID: id})
+		dedRelease()
+		logf(ev{Ev: "DedCloseEnd", ID: id})
+		t0 = time.Now()
 	case "ctxend":
 		mu.Lock()
 		for _, pc := range calls {
-			if pc.ctxk == "cancel" {
+			if pc.ctxk == "cancel" || pc.ctxk == "dlcancel" {
 				logf(ev{Ev: "CancelBegin", ID: pc.id})
 				pc.cancel()
 				pc.ctxEnd.Store(time.Now().UnixNano())
@@ -399,7 +652,7 @@ func runFaultScenario(sc faultScn, ord int) (events []ev, notes []string) {
 		}
 		mu.Unlock()
 		// deadlines end by themselves 400 ms after the call started
-		time.Sleep(450 * time.Millisecond)
+		time.Sleep((deadlineMs + 50) * time.Millisecond)
 		t0 = time.Now()
 	}
 
@@ -420,10 +673,14 @@ func runFaultScenario(sc faultScn, ord int) (events []ev, notes []string) {
 	}
 	waitUntil(hangWait, allDone)
 	logf(ev{Ev: "Waited", N: int(time.Since(t0) / time.Millisecond)})
+	stopTraffic()
 
 	// --- one more call (and another one when the first is the call that discovers the break of an idle connection)
 	if sc.Fault != "ctxend" {
 		for i, role := range []string{"after", "after2"} {
+			if sc.Fault == "dedbreak" && i == 0 {
+				continue // (made on the dedicated client, above)
+			}
 			id := fmt.Sprintf("a%d", i+1)
 			logf(ev{Ev: "Call", ID: id, Cls: "do", Ck: "none", Kind: role})
 			var k, v string
@@ -443,6 +700,7 @@ func runFaultScenario(sc faultScn, ord int) (events []ev, notes []string) {
 
 	// --- clean up whatever is legitimately still pending
 	logf(ev{Ev: "Cleanup"})
+	finished.Store(true)
 	mu.Lock()
 	for _, pc := range calls {
 		pc.cancel()
